@@ -26,7 +26,9 @@ attaches a mark to the atom before it and to the NEXT atom of the same fragment 
 would take the mark over - outside the quantifier); a double bond carries no mark.
 
 Known on both trees (finding F12): when the atoms l1, a1, a2, l2 of a marked double bond end up in different fragments,
-the relation depends on the order in which the base graph lists the fragments (pysmiles compares node indices).
+the relation depends on the order in which the base graph lists the fragments (pysmiles compares node indices); with
+two marked substituents on one atom the same comparison can also reject the molecule ('Conflicting cis/trans
+assignment') in some orders.
 Signatures: resolve/ez-depends-on-fragment-order/cut-at-double-bond, .../cut-at-marked-single-bond.
 """
 import itertools
@@ -190,25 +192,24 @@ def check_case(case):
         return _evaluate(mol, fine, expected)
     perms = list(itertools.permutations(range(k)))
     identity = tuple(range(k))
-    try:
-        for perm in perms:
-            results[(perm, 'graph')] = run(perm, 'graph')
-        # the string form, in the order the writer produces (fragments in order of their first atom, depth first)
-        ids = list(range(k))
-        text, app = gr.render_graph(ids, [(a, b, 1) for a, b in fedges], {i: '[#F%d]' % i for i in ids})
-        s = '{' + text + '}.' + block
-        results[(tuple(app), s)] = run(tuple(app), s)
-    except Exception as e:    # noqa
-        fails.append(Failure('MoleculeResolver.resolve_all', 'exception', '%s cuts %s %s: %s: %s' % (case['mol'], cuts, block, type(e).__name__, str(e)[:300]),
-                             'resolve/stereo-input/exception/%s' % type(e).__name__))
-        return Outcome(key, bool(cuts), fails)
+    # the string form, in the order the writer produces (fragments in order of their first atom, depth first)
+    ids = list(range(k))
+    text, app = gr.render_graph(ids, [(a, b, 1) for a, b in fedges], {i: '[#F%d]' % i for i in ids})
+    jobs = [(perm, 'graph') for perm in perms] + [(tuple(app), '{' + text + '}.' + block)]
+    for perm, how in jobs:
+        try:
+            results[(perm, how)] = run(perm, how)
+        except Exception as e:    # noqa
+            # the input is well formed by construction: a rejection is a failure; in an order other than the
+            # construction order it is the order dependence of finding F12 showing as an exception
+            results[(perm, how)] = ([('exception', '%s: %s' % (type(e).__name__, str(e)[:200]))], list(expected))
     ident_ok = not results[(identity, 'graph')][0]
     seen_sig = set()
     for (perm, how), (probs, wrong) in results.items():
         for clause, detail in probs:
-            if clause in ('ez-relation', 'ez-annotation-missing', 'ez-annotation-unexpected'):
+            if clause in ('ez-relation', 'ez-annotation-missing', 'ez-annotation-unexpected', 'exception'):
                 cls = _cut_class(mol, cuts, wrong)
-                if clause == 'ez-relation' and ident_ok and perm != identity:
+                if clause in ('ez-relation', 'exception') and ident_ok and perm != identity and expected:
                     sig = 'resolve/ez-depends-on-fragment-order/' + cls
                 else:
                     sig = 'resolve/%s/%s/%s' % (clause, 'construction-order' if perm == identity else 'other-order', cls)
